@@ -14,11 +14,11 @@
    threads are told apart by the identity test of remove_callback (live pika threads have
    distinct pika ids, threads without a pika id distinct OS ids); C14_ids_faithful_needed shows
    the hypothesis cannot be dropped. *)
-From Coq Require Import List NArith Bool.
+From Coq Require Import List NArith Bool Lia.
 From Pika Require Import Base.Conc Gen.GenStopBits Model.StopWord Model.StopState
   Model.StopHandles Proofs.StopFlagsProofs Proofs.StopStateProofs Proofs.StopHandlesProofs
   Proofs.StopCallbacksAbs Proofs.StopCallbacksProofs Proofs.StopProgressStep Proofs.StopProgressProofs
-  Proofs.StopCtorProofs.
+  Proofs.StopCtorProofs Proofs.StopSourcesProofs.
 Import ListNotations.
 
 (* the regenerated layout: four disjoint fields filling the 64-bit word *)
@@ -290,6 +290,50 @@ Example C14_callback_in_ctor_example :
   cb_inctor (cb (fst c2) 0%nat) = true /\ In (EvRun 0 0 true) (log (fst c2)) /\
   thread_done (snd c2 0%nat) = true.
 Proof. Transparent W. vm_compute. repeat split; try reflexivity. right. left. reflexivity. Qed.
+
+(* the source field of the word in the concurrent model is an exact count of the stop_source
+   handles: [held l] = stop_sources owned by a thread as the word sees them (hsrc, minus the one
+   whose count ~stop_source has already taken back), [base] = stop_sources owned outside the
+   modelled threads, threads >= nthr own none ([good_srcs]: the initial word agrees with that) *)
+Theorem C14_sources_exact : forall P sched w0 progs srcs nthr base, good_init w0 ->
+  good_srcs nthr base w0 srcs ->
+  let c := st_run P sched w0 progs srcs in
+  w_sources (word (fst c)) = (base + N.of_nat (sumf (fun t => held (snd c t)) nthr))%N /\
+  forall t, nthr <= t -> held (snd c t) = 0.
+Proof. exact sources_exact. Qed.
+Print Assumptions C14_sources_exact.
+
+(* the "registration refused because not stop_possible" outcome of add_callback (the third
+   alternative of C14_callback_exactly_once): the read of lock_if_not_stopped that sends the
+   constructor of k to its refused exit (ALoad / ACas / ASpin -> ARelease, nothing ran) happens
+   only when stop was not requested and no stop_source for the state exists anywhere *)
+Theorem C14_refused_only_if_no_source : forall P sched w0 progs srcs nthr base, good_init w0 ->
+  good_srcs nthr base w0 srcs ->
+  let c := st_run P sched w0 progs srcs in
+  forall t o k,
+    (pc (norm (snd c t)) = ALoad k \/ (exists old, pc (norm (snd c t)) = ACas k old) \/
+     pc (norm (snd c t)) = ASpin k) ->
+    pc (snd (st_tstep P o t (fst c) (snd c t))) = ARelease k ->
+    w_stop_requested (word (fst c)) = false /\ w_sources (word (fst c)) = 0%N /\ base = 0%N /\
+    forall t', held (snd c t') = 0.
+Proof. exact refused_only_if_no_source. Qed.
+Print Assumptions C14_refused_only_if_no_source.
+
+(* non-vacuity: (a) the lock-step harness's initial words satisfy good_srcs (thread 1 owns the only
+   source); (b) a state with two token owners and no source: the constructor of callback 0 reads
+   the word at ALoad and is refused *)
+Example C14_refused_example :
+  let P := {| cb_body := fun _ => []; pika_id := fun _ => None; os_id := fun t => t |} in
+  good_srcs 2 0 (3 + source_ref_increment)%N (fun t => match t with 1%nat => 1%nat | _ => 0%nat end) /\
+  let progs := fun t => match t with 0%nat => [OpAdd 0] | _ => [] end in
+  let c := st_run P [(0%nat, false); (0%nat, false)] 2%N progs (fun _ => 0%nat) in
+  good_init 2%N /\ good_srcs 1 0 2%N (fun _ => 0%nat) /\ pc (norm (snd c 0%nat)) = ALoad 0 /\
+  pc (snd (st_tstep P false 0 (fst c) (snd c 0%nat))) = ARelease 0.
+Proof.
+  Transparent W. cbv zeta. split; [split; [intros [|[|t]] H; try lia; reflexivity|vm_compute; reflexivity]|].
+  split; [vm_compute; repeat split; reflexivity|]. split; [split; [reflexivity|vm_compute; reflexivity]|].
+  split; vm_compute; reflexivity.
+Qed.
 
 (* ------------------------------------------------------------------------------------------
    Part 2: handle histories (stop_source / stop_token construct, copy, move, copy-assign,
